@@ -85,6 +85,8 @@ type Ctx struct {
 	opaqueSeq   int
 	facts       map[string]bool // ground facts already asserted on this path
 	schedSeq    int
+	known       map[int]bool
+	knownFalse  map[int]bool
 	opaqueUsed  bool
 	pfCalls     []pfCall
 	PFLearned   map[int][]string // ParseFloat facts learned by CEGAR (persist across paths)
@@ -102,6 +104,8 @@ func (c *Ctx) beginPath(prefix []int) {
 	c.pos = 0
 	c.trace = c.trace[:0]
 	c.pc = c.pc[:0]
+	c.known = map[int]bool{}
+	c.knownFalse = map[int]bool{}
 	c.sent = 0
 	c.nondets = c.nondets[:0]
 	c.pending = nil
@@ -133,6 +137,40 @@ func (c *Ctx) addPC(t *sym.Term) {
 		return
 	}
 	c.pc = append(c.pc, t)
+	c.noteKnown(t)
+}
+
+// noteKnown records t (and the conjuncts of an `and`) as syntactically known on this path, so
+// that a later branch on the very same term (terms are hash-consed) needs no solver call.
+func (c *Ctx) noteKnown(t *sym.Term) {
+	c.known[t.ID] = true
+	if t.Kind == sym.TApp && t.Head == "and" {
+		for _, a := range t.Args {
+			c.noteKnown(a)
+		}
+	}
+	if t.Kind == sym.TApp && t.Head == "not" {
+		c.knownFalse[t.Args[0].ID] = true
+		if a := t.Args[0]; a.Kind == sym.TApp && a.Head == "or" {
+			for _, x := range a.Args {
+				c.knownFalse[x.ID] = true
+			}
+		}
+	}
+}
+
+// syntactic returns +1 if t is known to hold on this path, -1 if known not to, 0 otherwise.
+func (c *Ctx) syntactic(t *sym.Term) int {
+	if c.known[t.ID] {
+		return 1
+	}
+	if c.knownFalse[t.ID] {
+		return -1
+	}
+	if t.Kind == sym.TApp && t.Head == "not" {
+		return -c.syntactic(t.Args[0])
+	}
+	return 0
 }
 
 func (c *Ctx) end(kind, format string, args ...interface{}) {
@@ -155,17 +193,31 @@ func (c *Ctx) sat(t *sym.Term) smt.Result {
 // at least two non-false conditions consumes or produces exactly one trace entry, so that
 // re-execution of a prefix is deterministic without consulting the solver.
 func (c *Ctx) Choose(conds []*sym.Term) int {
-	// constant resolution
+	// constant and syntactic resolution (identical in live and replay mode)
 	nz := -1
 	cnt := 0
+	var filtered []*sym.Term
 	for i, t := range conds {
 		if t.IsTrue() {
 			return i
 		}
 		if !t.IsFalse() {
+			switch c.syntactic(t) {
+			case 1:
+				return i
+			case -1:
+				if filtered == nil {
+					filtered = append([]*sym.Term{}, conds...)
+				}
+				filtered[i] = c.B.False
+				continue
+			}
 			cnt++
 			nz = i
 		}
+	}
+	if filtered != nil {
+		conds = filtered
 	}
 	if cnt == 0 {
 		c.end("INFEASIBLE", "no feasible alternative")
@@ -178,6 +230,9 @@ func (c *Ctx) Choose(conds []*sym.Term) int {
 		d := c.prefix[c.pos]
 		c.pos++
 		c.trace = append(c.trace, d)
+		if d < 0 || d >= len(conds) || conds[d].IsFalse() {
+			c.end("DESYNC", "replayed decision %d does not fit %d alternatives", d, len(conds))
+		}
 		c.addPC(conds[d])
 		return d
 	}
@@ -238,6 +293,14 @@ func (c *Ctx) Require(cond *sym.Term, what string) bool {
 		c.Trivial++
 		return false
 	}
+	switch c.syntactic(cond) {
+	case 1:
+		c.Trivial++
+		return true
+	case -1:
+		c.Trivial++
+		return false
+	}
 	if !c.live() {
 		d := c.prefix[c.pos]
 		c.pos++
@@ -262,7 +325,9 @@ func (c *Ctx) Require(cond *sym.Term, what string) bool {
 		}
 		c.trace = append(c.trace, 0)
 		c.pos++
-		// cond is implied by pc: no need to add it
+		// cond is implied by pc; it is still recorded so that the syntactic cache evolves
+		// identically in live and replay mode
+		c.addPC(cond)
 		return true
 	}
 	if r == smt.Unknown {
